@@ -447,6 +447,39 @@ def r12_9(ctx: Ctx, rule: str = "R12.9") -> None:
         ctx.check(ok, rule, f, c, "an output path is registered only after it was compared with the open archive",
                   f"_extract registers `{path}` for writing without asking whether it is the archive that is being read: `extractall(path=<directory of the archive>)` of an archive that "
                   "holds a member named like itself overwrites the archive in a mode-'r' session and returns normally", construct="output path may be the archive")
+    # (d) a member that is extracted AS A LINK replaces what is at the path and never writes through it: the refusal does not apply to it - a
+    # link member that points at the archive ('latest -> backup.7z') would otherwise extract once and be refused ever after
+    def is_link_flag(e: ast.AST) -> bool:
+        e = q.expand_locals(f, e)
+        return any(isinstance(x, ast.Attribute) and x.attr == "is_symlink" for x in ast.walk(e))
+    for g in guards:
+        exempt = any((not pol) and is_link_flag(a) for a, pol in q.atoms(g.ast, True))
+        ctx.check(exempt, rule, f, g.ast, "the refusal to write over the archive does not apply to members extracted as links",
+                  f"`{norm(g.ast)[:100]}` also refuses a symbolic-link member whose path leads to the archive: extraction only REPLACES the link, so the first extraction succeeds and every later "
+                  "one into the same directory raises Bad7zFile - a read session that cannot be repeated", construct="identity test applied to link members")
+    # (e) where a path leads is asked again WHERE IT IS OPENED: a link extracted a moment ago ('d -> .', then 'd/<archive name>') did not exist when
+    # the outputs were planned.  In Worker._extract_single every open for writing of a real output is preceded, in the same arm, by an identity test
+    # that raises, guarded by nothing but 'is a real file' / 'the archive is a file' / 'something is there'
+    es = ctx.prog.func("py7zr", "Worker._extract_single")
+    ecfg = cfg_of(es.node)
+    opens = [c for c in q.calls(es) if attr_tail(c) == "open" and any(k.arg == "mode" and isinstance(k.value, ast.Constant) and "w" in str(k.value.value) for k in c.keywords)]
+    ctx.floor(rule, len(opens), 1, "opens for writing in _extract_single")
+    idt = [t for t in ecfg.nodes if t.kind == "test" and any(isinstance(x, ast.Call) and attr_tail(x) in ("samestat", "samefile", "sameopenfile") for x in ast.walk(t.ast))
+           and any(e.kind == "true" and q.branch_always_raises(ecfg, e) for e in t.succ)]
+    for c in opens:
+        cn = q.node_for(es, c)
+        here = {(norm(cd), pol) for cd, pol in q.facts_at(es, c)}
+        ok = False
+        for t in idt:
+            if not ecfg.reaches(t, cn):
+                continue
+            extra = [(cd, pol) for cd, pol in q.facts_at(es, t.ast) if (norm(cd), pol) not in here]
+            if all(any(w in norm(cd) for w in ("MemIO", "own_stats", "exists")) for cd, pol in extra):
+                ok = True
+        ctx.check(ok, rule, es, c, "an output is compared with the open archive where it is opened for writing",
+                  f"`{norm(c)}` opens the member's path for writing without asking whether it leads to the archive NOW: with members 'd -> .' and 'd/<name of the archive>' the path did "
+                  "not exist when _extract compared the planned outputs with the archive; the worker truncates the archive it is reading, extractall() returns normally",
+                  construct="no identity test at the open")
     # the comparison is with the file the path LEADS to (open() follows links): the identity helper looks at its argument with stat, not lstat
     for m in [mm for mm in cls.methods.values() if any(isinstance(y, ast.Call) and attr_tail(y) in ("samestat",) for y in walk(mm.node))]:
         ls = [y for y in walk(m.node) if isinstance(y, ast.Call) and attr_tail(y) == "lstat" and (
